@@ -325,7 +325,7 @@ def replay_ce(ce):
     kind sequence + slot assignment that builds with all arities right; natively we search the slot assignments of that kind
     sequence (and two contexts) for one that really builds and evaluates to Ok. Found => reproduced; none => the arity proxy was
     violated but the statement was not ('benign')."""
-    if 'operator' in ce and 'children' in ce:
+    if ('operator' in ce and 'children' in ce) or ce.get('walk'):
         import c08
         return c08.replay_ce(ce)
     if ce.get('arity'):
